@@ -426,7 +426,8 @@ def main(pid, argv=None):
                 c.encs.append(dict(value=rp["value"], req=rp.get("req"), stream="replay",
                                    impl=cc.impl_encode(c.obj, rp["value"], rp.get("req"))))
             if "msg" in rp:
-                c.decs.append(dict(msg=rp["msg"], origin="replay", impl=cc.impl_decode(c.obj, rp["msg"])))
+                c.decs.append(dict(msg=rp["msg"], origin="canonical" if rp.get("canonical") else "replay",
+                                   impl=cc.impl_decode(c.obj, rp["msg"])))
     else:
         extra = []
         if pid in ("C01", "C02", "C04"):
@@ -581,6 +582,21 @@ def main(pid, argv=None):
                 st = cc.impl_static(c.obj)
                 sb = st[0][0] if isinstance(st, list) and len(st) == 4 and st[0] else None
             for di, d in enumerate(c.decs):
+                if pid == "C03" and d["origin"] == "canonical":
+                    # a canonical PDU decodes, and the decoded values encode to it again
+                    ck.count(("canon", json.dumps(c.params, default=repr), d["msg"]))
+                    impl = d["impl"]
+                    bad = None
+                    if impl[0] != 0:
+                        bad = f"the canonical PDU {bytes(d['msg']).hex()} does not decode (outcome {impl})"
+                    else:
+                        re_enc = cc.impl_encode(c.obj, cc.unw_value(impl[1]), None)
+                        if re_enc[0] != 0 or bytes(re_enc[1]) != bytes(d["msg"]):
+                            bad = (f"the canonical PDU {bytes(d['msg']).hex()} decodes to {cc.unw_value(impl[1])!r}, which re-encodes to "
+                                   f"{bytes(re_enc[1]).hex() if re_enc[0] == 0 else re_enc}")
+                    if bad:
+                        ck.violation(bad, rep(c, msg=d["msg"], impl=impl, canonical=True))
+                    continue
                 if pid in ("C01", "C03") and d["origin"] != "own":
                     continue
                 ck.count(("d", json.dumps(c.params, default=repr), d["msg"]))
